@@ -66,6 +66,34 @@ PROPS = {
         real_vs_stub="real: lock.go, lock_file.go, sema wrapper, Repository; simulated: object store, clock, PID/host table, goroutine choice",
         assumptions=SIM_ASSUME + ["pairwise clock offset <= 6 min, one stall <= 6 min inside a lock operation per process, no retry layer under the lock code"],
     ),
+    "C26": dict(
+        pkg="cmd/restic", test="TestVerifC26", level="fault_enumeration", quick_s=45, thorough_s=600,
+        text="generated snapshots, optionally one completed rewrite first, then one of tag / rewrite --exclude (--forget or keeping the old one) / "
+             "rewrite --new-host repeated with a crash after every one of its applied backend mutations (complete sweep of the crash points of "
+             "that run); at every crash point the old snapshot or a successor exists, every successor names the first snapshot's ID as original, "
+             "tag and metadata rewrites keep the tree, every snapshot file present is complete per the store decoder and restores to what the "
+             "model (source tree minus excluded names) says",
+        note="crash points are enumerated completely per run, schedules and inputs are sampled; repair snapshots is exercised by C34",
+        design_ref="3 / C26",
+        rule="one run = configuration x generated snapshot(s) x optional prior rewrite x operation kind, swept over every crash point k; "
+             "distinct = distinct event-log hash (every run sweeps >=3 crash points)",
+        real_vs_stub=L_REAL,
+        assumptions=SIM_ASSUME + ["backend Save/Remove are atomic at a crash"],
+    ),
+    "C29": dict(
+        pkg="cmd/restic", test="TestVerifC29", level="fault_enumeration", quick_s=45, thorough_s=600,
+        text="generated histories of key add / key passwd / key remove (also of the key in use) with several passwords, earlier operations "
+             "optionally crashed or given transient errors, the last operation repeated with a crash after every one of its applied backend "
+             "mutations; at every point every password of the universe (all ever used plus a wrong one) is tried through the real "
+             "OpenRepository/SearchKey path, with and without --key-hint, and must open the repository iff a key file created with it is present; "
+             "every successful open must yield the initial master key; at least one working key always exists; removing the key in use is refused",
+        note="a key file that became durable before a crash counts with the password it was created for; fewer than 20 keys; crash points of the "
+             "last operation enumerated completely, histories sampled",
+        design_ref="3 / C29",
+        rule="one run = configuration x history of 1-4 key operations x faults, last operation swept over every crash point; distinct = distinct event-log hash",
+        real_vs_stub=L_REAL,
+        assumptions=SIM_ASSUME + ["backend Save/Remove are atomic at a crash; torn files only after an error-returning Save on non-atomic backends"],
+    ),
     "C15": dict(
         pkg="cmd/restic", test="TestVerifC15", level="exploration", quick_s=60, thorough_s=900,
         text="generated histories of 2-8 operations over backup, forget, prune, forget --prune, tag, rewrite --exclude, key add/passwd and repair "
